@@ -144,7 +144,8 @@ fn run_queue(q: &QueueCase, ctx: &Arc<ExecCtx>) {
 // ------------------------------------------------------------------ C12: asynchronous channel
 
 fn run_chan(c: &ChanCase, ctx: &Arc<ExecCtx>) {
-    let (tx, mut rx) = nx::vchannel(c.cap.max(1) as usize);
+    let (tx, rx) = nx::vchannel(c.cap.max(1) as usize);
+    let mut rx = Some(rx);
     let mut handles = Vec::new();
     for (pi, vals) in c.producers.iter().enumerate() {
         let tx = tx.clone();
@@ -176,11 +177,16 @@ fn run_chan(c: &ChanCase, ctx: &Arc<ExecCtx>) {
         }
         if c.close_after == Some(received as u8) {
             ctx.log(Ev::Comp(CompEv::CloseInvoke { by_receiver: true }));
-            rx.close();
+            if c.recv_drop {
+                drop(rx.take());
+                ctx.log(Ev::Comp(CompEv::CloseReturn { by_receiver: true }));
+                break;
+            }
+            rx.as_mut().unwrap().close();
             ctx.log(Ev::Comp(CompEv::CloseReturn { by_receiver: true }));
         }
         ctx.log(Ev::Comp(CompEv::RecvInvoke));
-        match rt::block_on(rx.recv()) {
+        match rt::block_on(rx.as_mut().unwrap().recv()) {
             Ok(v) => {
                 ctx.log(Ev::Comp(CompEv::RecvReturn { v: Some(v) }));
                 received += 1;
@@ -194,8 +200,10 @@ fn run_chan(c: &ChanCase, ctx: &Arc<ExecCtx>) {
     for h in handles {
         let _ = h.join();
     }
-    ctx.log(Ev::Comp(CompEv::ChanLenFinal { len: rx.len() }));
-    drop(rx);
+    if let Some(rx) = rx {
+        ctx.log(Ev::Comp(CompEv::ChanLenFinal { len: rx.len() }));
+        drop(rx);
+    }
 }
 
 // ------------------------------------------------------------------ C13: task lifecycle
